@@ -118,7 +118,8 @@ def buildCursorCol {φ : Type} (q : ColQuery φ) (order : Order) (ret : List Row
     | none => .ok { data, pageSize := ps, hasMore := next.isSome, next, previous := none }
     | some pid =>
       match q.bottom with
-      | none => .error "panic: nil bottom"
+      -- `PaginationID != nil && Bottom != nil` (fix 2262951; a nil bottom used to panic)
+      | none => .ok { data, pageSize := ps, hasMore := next.isSome, next, previous := none }
       | some b =>
         let prev : Option (ColQuery φ) :=
           if (order == .asc && decide (pid > b)) || (order == .desc && decide (pid < b)) then
@@ -126,12 +127,19 @@ def buildCursorCol {φ : Type} (q : ColQuery φ) (order : Order) (ret : List Row
           else none
         .ok { data, pageSize := ps, hasMore := next.isSome, next, previous := prev }
 
-/-- `Paginate` + scan + `BuildCursor` for a column-paginated query. -/
+/-- `Paginate` + scan + `BuildCursor` for a column-paginated query whose order is
+    set (`PaginatedResourceRepository.Paginate` sets a missing order first:
+    `ColQuery.withOrder`). -/
 def paginateCol {φ : Type} (q : ColQuery φ) (table : List Row) : Except String (Page (ColQuery φ)) :=
   match q.order with
-  | none => .error "panic: nil order"
+  | none => .error "order not set"
   | some order =>
     buildCursorCol q order (fetchCol order q.reverse q.paginationID q.pageSize table)
+
+/-- `if v.Order == nil { v.Order = &r.defaultOrder }` — a cursor without order gets
+    the repository's default order (fix 2262951; it used to panic). -/
+def ColQuery.withOrder {φ : Type} (dflt : Order) (q : ColQuery φ) : ColQuery φ :=
+  { q with order := some (q.order.getD dflt) }
 
 /-- The first page of a listing (`InitialPaginatedQuery` turned into a
     `ColumnPaginatedQuery`). -/
@@ -182,9 +190,12 @@ def buildCursorOff {φ : Type} (q : OffQuery φ) (ret : List Row) : Except Strin
   else
     .ok { data := ret, pageSize := q.pageSize, hasMore := false, next := none, previous }
 
+def OffQuery.withOrder {φ : Type} (dflt : Order) (q : OffQuery φ) : OffQuery φ :=
+  { q with order := some (q.order.getD dflt) }
+
 def paginateOff {φ : Type} (q : OffQuery φ) (table : List Row) : Except String (Page (OffQuery φ)) :=
   match q.order with
-  | none => .error "panic: nil order"
+  | none => .error "order not set"
   | some order =>
     if q.offset > maxInt32 then .error "offset value exceeds maximum allowed value"
     else buildCursorOff q (fetchOff order q.offset q.pageSize table)
